@@ -132,6 +132,9 @@ LineCheck(i, tainted) ==
         ELSE IF (Want("C08") \/ Want("C11")) /\ kern /\ c.op = "add_face_v" /\ ~relM THEN "C08:AddFaceFromVertices"
         ELSE IF Want("C08") /\ kern /\ ((c.op = "add_face" /\ c.f) \/ c.op = "add_face_v") /\ ln.ret \in LiveF(post)
                 /\ ~ClosedLoop(post, At(post.faces, ln.ret)) THEN "C08:AcceptedFaceNotClosedLoop"
+        ELSE IF Want("C08") /\ kern /\ c.op \notin {"set_edge", "set_face", "set_cell"} /\ ~(c.op = "add_face" /\ ~c.f)
+                /\ (\A f \in LiveF(pre) : ClosedLoop(pre, At(pre.faces, f)))
+                /\ ~(\A f \in LiveF(post) : ClosedLoop(post, At(post.faces, f))) THEN "C08:FaceNoLongerClosedLoop"
         ELSE IF Want("STEP") /\ kern /\ ~relH THEN "STEP:" \o c.op
         ELSE IF Want("C03") /\ hasP /\ kern /\ (relH \/ ~Renumbers(pre, c)) /\ ~PropsFollow(pre, post, pp, qp, g, IsSwap(c))
              THEN "C03:PropsFollow"
